@@ -62,7 +62,7 @@ func (Engine) Describe(prop string) core.Description {
 			"IDs are non-empty; identifiers as primary data do not count as duplicates of an included resource",
 			"the uniqueness clause is checked only when included resources were added through Include (as the statement says)",
 		}
-		d.Probes = []string{"include-repeat", "include-primary-resource", "include-same-id-other-type", "include-on-resources-collection", "include-on-softcollection", "include-on-wrappercollection", "include-on-single-resource", "doc-with-errors", "exotic-names", "primary-member-replaced-between-includes", "earlier-payload-revalidated"}
+		d.Probes = []string{"include-repeat", "include-primary-resource", "include-same-id-other-type", "include-on-resources-collection", "include-on-softcollection", "include-on-wrappercollection", "include-on-single-resource", "doc-with-errors", "exotic-names", "primary-member-replaced-between-includes", "earlier-payload-revalidated", "resource-without-id"}
 	}
 
 	return d
